@@ -1,6 +1,7 @@
 SPECIFICATION Spec
 CONSTANTS MaxOuts = 2
  MaxLines = 3
+ Candidates = FALSE
  Timeouts = FALSE
  TwoSteps = FALSE
  Export = FALSE
